@@ -17,7 +17,7 @@ using namespace QtLogger;
 
 namespace {
 
-struct Params { std::string scenario, hist; int p = 2, m = 2, backlog = 2, racer = 0, cycles = 1, glib = 1, racerAt = -1, nested = 0, fatal = 0; } P;
+struct Params { std::string scenario, hist; int p = 2, m = 2, backlog = 2, racer = 0, cycles = 1, glib = 1, racerAt = -1, nested = 0, fatal = 0, racerReset = 0; } P;
 
 std::string S(long long v) { return std::to_string(v); }
 
@@ -32,6 +32,7 @@ struct World {
     bool stopBegan = false, stopReturned = false, handlerDestroyed = false;
     int workerTid = -1;
     std::vector<std::string> acceptedBeforeStop, accepted;
+    std::set<int> inLogCall;            // threads that are inside a logging call of the asynchronous handler right now
     int sinkInFlight = 0;               // threads inside a sink (send or flush) right now: sinks are not thread-safe, never more than one
     bool nestedDone = false;
     std::map<std::string, std::pair<long, long>> calls; // message -> (tick when the logging call began, tick when it returned)
@@ -51,14 +52,22 @@ void sinkEnter()
     if (W->workerTid < 0 || vs::self() != W->workerTid) return;
     W->workerInSink++;
     for (auto *l : vqt::G().locks)
-        if (l->heldBy(W->workerTid) && l->waiters > 0)
+        if (l->heldBy(W->workerTid) && l->waiters > 0 && !W->inLogCall.count(W->workerTid))
             vs::violation("producer-blocks-on-sink", std::string("the worker runs a sink while holding a ") + l->kind + " that another thread is waiting for");
 }
 void sinkExit() { if (W->workerInSink > 0 && vs::self() == W->workerTid) W->workerInSink--; }
 void installContendOracle()
 {
+    // C03 "the logging call never blocks on a sink", polling variant: a logging call that goes to sleep while a logger thread exists is
+    // waiting for that thread (the unchanged library never sleeps inside process(); only a stop does)
+    vqt::G().onSleep = [] {
+        if (W && W->workerTid >= 0 && W->inLogCall.count(vs::self()) && !W->stopBegan)
+            vs::violation("producer-blocks-on-sink", "a logging call goes to sleep (polls) while the logger thread is running: it waits for the sinks to catch up");
+    };
     vqt::G().onContend = [](vqt::LockState *l, int me) {
-        if (W && W->workerInSink > 0 && W->workerTid >= 0 && me != W->workerTid && l->heldBy(W->workerTid))
+        // (a sink that logs itself takes the handler's lock for the moment it queues its message: waiting for THAT is waiting for another
+        //  logging call, not for the sink)
+        if (W && W->workerInSink > 0 && W->workerTid >= 0 && me != W->workerTid && l->heldBy(W->workerTid) && !W->inLogCall.count(W->workerTid))
             vs::violation("producer-blocks-on-sink", std::string("a thread has to wait for a ") + l->kind + " held by the worker while the worker is inside a sink");
     };
 }
@@ -105,6 +114,12 @@ struct RecSink : Sink {
         out->push_back(d);
         vs::progress();
         if (g_nestedLog && !W->nestedDone && d.text == "p0:0" && W->workerTid >= 0 && vs::self() == W->workerTid) { W->nestedDone = true; g_nestedLog(); }
+        if (P.nested == 2 && d.text == "p0:0" && W->workerTid >= 0 && vs::self() == W->workerTid) {
+            // a handler that pumps its thread's event loop: event delivery is re-entered on the logger thread (the sink counts as left meanwhile)
+            W->sinkInFlight--; sinkExit();
+            vqt::VCoreApp::processEvents();
+            sinkEnter(); W->sinkInFlight++;
+        }
         vqt::yield(tag);
         W->sinkInFlight--;
         sinkExit();
@@ -223,6 +238,40 @@ void scenarioC02B()
     delete h;
 }
 
+// Scenario CHAIN: two own-thread-capable pipelines of the same class in synchronous mode, the second one a handler of the first AND
+// fed directly by another thread: whichever way a thread comes in, no two threads may be inside the second pipeline's sink.
+void scenarioC02Chain()
+{
+    W = new World;
+    int p = P.p, m = P.m;
+    vs::atEnd = [p, m](const std::string &st) {
+        vs::observe("A: " + fmtDeliveries(W->a, false));
+        if (st != "done") return;
+        std::map<std::pair<int, int>, int> ca;
+        for (auto &d : W->a) ca[{ d.prod, d.idx }]++;
+        for (int k = 0; k < p; k++) for (int i = 0; i < m; i++)
+            if (ca[{ k, i }] != 1) vs::violation("exactly-once", "message p" + S(k) + ":" + S(i) + " reached the inner sink " + S(ca[{ k, i }]) + " times");
+        std::map<int, int> last;
+        for (auto &d : W->a) { if (last.count(d.prod) && d.idx <= last[d.prod]) vs::violation("producer-order", "producer " + S(d.prod) + ": message " + S(d.idx) + " delivered after " + S(last[d.prod])); last[d.prod] = d.idx; }
+    };
+    auto inner = QSharedPointer<OwnThreadHandler<Pipeline>>::create();
+    inner->append(SinkPtr(new RecSink(&W->a, "inner-sink")));
+    auto *outer = new OwnThreadHandler<Pipeline>();
+    outer->append(HandlerPtr(new ProbeIn));
+    outer->append(inner);
+    outer->append(HandlerPtr(new ProbeOut));
+    std::vector<int> tids;
+    for (int k = 0; k < p; k++) tids.push_back(spawnJ([k, m, outer, inner] {
+        for (int i = 0; i < m; i++) {
+            QMessageLogContext ctx("f.cpp", 1, "fn", "cat");
+            LogMessage msg(QtDebugMsg, ctx, QStringLiteral("p%1:%2").arg(k).arg(i));
+            if (k % 2 == 0) outer->process(msg); else inner->process(msg);    // even producers through the outer pipeline, odd ones straight into the inner one
+        }
+    }, "producer"));
+    join(tids);
+    delete outer;
+}
+
 // ------------------------------------------------------------------------------------------------ C03
 struct Orig {
     QtMsgType type; QString message, fmt; std::string file, function, category; bool fileNull, functionNull, categoryNull; int line;
@@ -318,7 +367,9 @@ void scenarioC03H()
                          msg.time(), msg.steadyTime(), msg.threadId(), msg.attributes(), 0, 0 };
                 o.start = ++W->clock;
                 (*origs)[text.toStdString()] = o;
+                W->inLogCall.insert(vs::self());
                 h->process(msg);
+                W->inLogCall.erase(vs::self());
                 (*origs)[text.toStdString()].ret = ++W->clock;
             }
             if (file) memset(file, 'X', strlen(file));
@@ -326,6 +377,44 @@ void scenarioC03H()
             memset(cat, 'X', strlen(cat));
         }
         free(reFile); free(reFunc); free(reCat);
+    }, "producer"));
+    join(tids);
+    W->stopBegan = true;
+    h->resetOwnThread();
+    delete h;
+    delete app;
+}
+
+// Scenario BURST: one producer logs a long burst (P.m messages, thousands) while the worker is held inside the sink for the first
+// message: every logging call must return without waiting for the sink, whatever the backlog (no back-pressure that blocks callers)
+void scenarioC03Burst()
+{
+    W = new World;
+    vqt::G().glibDispatcher = P.glib;
+    int m = P.m;
+    auto *count = new long(0);
+    vs::atEnd = [m, count](const std::string &st) {
+        vs::observe("delivered " + S((long long)W->a.size()) + " of " + S(m) + ", calls returned while the sink was held: " + S(*count));
+        if (st != "done") return;
+        if ((int)W->a.size() != m) vs::violation("exactly-once", S((long long)W->a.size()) + " of " + S(m) + " messages delivered");
+        for (size_t i = 0; i < W->a.size(); i++) if (W->a[i].idx != (int)i) { vs::violation("producer-order", "burst delivered out of order at position " + S((long long)i)); break; }
+    };
+    auto *app = new vqt::VCoreApp();
+    auto *h = new OwnThreadHandler<Pipeline>();
+    h->append(SinkPtr(new RecSink(&W->a, "sink")));
+    h->moveToOwnThread();
+    W->workerTid = lastStartedTid();
+    installContendOracle();
+    std::vector<int> tids;
+    tids.push_back(spawnJ([m, h, count] {
+        for (int i = 0; i < m; i++) {
+            QMessageLogContext ctx("f.cpp", 1, "fn", "cat");
+            LogMessage msg(QtDebugMsg, ctx, QStringLiteral("p0:%1").arg(i));
+            W->inLogCall.insert(vs::self());
+            h->process(msg);
+            W->inLogCall.erase(vs::self());
+            if (W->workerInSink > 0) (*count)++;
+        }
     }, "producer"));
     join(tids);
     W->stopBegan = true;
@@ -380,7 +469,9 @@ void scenarioC03G()
                 o.exact = false; o.tLo = QDateTime::currentDateTime(); o.sLo = std::chrono::steady_clock::now();
                 o.start = ++W->clock;
                 (*origs)[text.toStdString()] = o;
+                W->inLogCall.insert(vs::self());
                 lg->processMessage(ty, ctx, text);
+                W->inLogCall.erase(vs::self());
                 Orig &r = (*origs)[text.toStdString()];
                 r.tHi = QDateTime::currentDateTime(); r.sHi = std::chrono::steady_clock::now();
                 r.ret = ++W->clock;
@@ -487,8 +578,10 @@ template<class H> void scenarioC04(int path)
 template<class H> void logOne(H *h, QtMsgType ty, const QString &text)
 {
     QMessageLogContext ctx("f.cpp", 1, "fn", "cat");
+    bool outer = W->inLogCall.insert(vs::self()).second;
     if constexpr (std::is_same<H, Logger>::value) h->processMessage(ty, ctx, text);
     else { LogMessage msg(ty, ctx, text); h->process(msg); }
+    if (outer) W->inLogCall.erase(vs::self());
 }
 
 template<class H> void scenarioC04X()
@@ -522,7 +615,8 @@ template<class H> void scenarioC04X()
     };
     vqt::VCoreApp *app = nullptr;
     auto *h = new H();
-    if (P.nested) g_nestedLog = [h, sent] {
+    installContendOracle();
+    if (P.nested == 1) g_nestedLog = [h, sent] {
         QString text = QStringLiteral("p2:0");
         W->calls[text.toStdString()].first = ++W->clock;
         logOne(h, QtWarningMsg, text);
@@ -547,7 +641,11 @@ template<class H> void scenarioC04X()
         vs::progress();
         if ((int)i == P.racerAt && P.racer > 0) {
             int n = P.racer;
-            racerTid = spawnJ([n, h, sent] {
+            if (P.racerReset) racerTid = spawnJ([h] {
+                // a SECOND thread stops the logger at the same time (an explicit reset racing with aboutToQuit / the main thread's reset)
+                h->resetOwnThread();
+            }, "second-stopper");
+            else racerTid = spawnJ([n, h, sent] {
                 for (int k = 0; k < n; k++) {
                     QString text = QStringLiteral("p1:%1").arg(k);
                     bool mustBeSync = W->syncForever;   // the last stop had returned before this call began
@@ -613,7 +711,7 @@ int main(int argc, char **argv)
     P.p = vx::argInt(argc, argv, "--p", 2); P.m = vx::argInt(argc, argv, "--m", 2);
     P.backlog = vx::argInt(argc, argv, "--backlog", 2); P.racer = vx::argInt(argc, argv, "--racer", 0);
     P.cycles = vx::argInt(argc, argv, "--cycles", 1); P.glib = vx::argInt(argc, argv, "--glib", 1);
-    P.hist = vx::argStr(argc, argv, "--hist", ""); P.racerAt = vx::argInt(argc, argv, "--racer-at", -1); P.nested = vx::argInt(argc, argv, "--nested", 0);
+    P.hist = vx::argStr(argc, argv, "--hist", ""); P.racerAt = vx::argInt(argc, argv, "--racer-at", -1); P.nested = vx::argInt(argc, argv, "--nested", 0); P.racerReset = vx::argInt(argc, argv, "--racer-reset", 0);
     const char *histsFile = vx::argStr(argc, argv, "--hists-file", nullptr);
     vs::Options o;
     o.bound = vx::argInt(argc, argv, "--bound", 2);
@@ -626,8 +724,10 @@ int main(int argc, char **argv)
     const std::string &s = P.scenario;
     if (s == "c02l") body = scenarioC02L;
     else if (s == "c02b") body = scenarioC02B;
+    else if (s == "c02chain") body = scenarioC02Chain;
     else if (s == "c03h") body = scenarioC03H;
     else if (s == "c03g") body = scenarioC03G;
+    else if (s == "c03burst") { body = scenarioC03Burst; o.stepLimit = 2000000; }
     else if (s == "c04xh") body = [] { scenarioC04X<OwnThreadHandler<Pipeline>>(); };
     else if (s == "c04xl") body = [] { scenarioC04X<Logger>(); };
     else if (s.compare(0, 4, "c04h") == 0) { int path = atoi(s.c_str() + 4); body = [path] { scenarioC04<OwnThreadHandler<Pipeline>>(path); }; }
@@ -641,7 +741,7 @@ int main(int argc, char **argv)
         for (auto &x : R.outcomes) sum.outcomes.insert(x);
         sum.counters["deadlocks"] += R.deadlocks; sum.counters["livelocks"] += R.livelocks; sum.counters["blocked_lock_events"] += R.blockedLockEvents;
         std::string pj = "\"scenario\":" + vx::jstr(s) + ",\"p\":" + S(P.p) + ",\"m\":" + S(P.m) + ",\"backlog\":" + S(P.backlog) + ",\"racer\":" + S(P.racer) + ",\"cycles\":" + S(P.cycles) + ",\"glib\":" + S(P.glib)
-            + ",\"hist\":" + vx::jstr(P.hist) + ",\"racer-at\":" + S(P.racerAt) + ",\"nested\":" + S(P.nested);
+            + ",\"hist\":" + vx::jstr(P.hist) + ",\"racer-at\":" + S(P.racerAt) + ",\"nested\":" + S(P.nested) + ",\"racer-reset\":" + S(P.racerReset);
         for (auto &v : R.violations) {
             std::string c; for (size_t i = 0; i < v.choices.size(); i++) c += (i ? "," : "") + S(v.choices[i]);
             sum.violate(s + ":" + v.key, "[" + label + "] " + v.what + " | observations: " + v.report, "{" + pj + ",\"choices\":" + vx::jstr(c) + "}");
